@@ -151,6 +151,11 @@ pub fn c15_runs(tier: Tier) -> Vec<(HistCfg, Caps)> {
                     caps(tier, 6, 0),
                 ));
             }
+            // many trees and small changes of the requested count (7 <-> 6, 10 <-> 9)
+            let many = build_menu(&[Some(7), Some(6)], &[Some(1)], 1);
+            runs.push((cfg(Metric::Euclidean, 2, 4, many, vec![4, 1, 0], obs.clone(), "euclidean-d2-trees-7-6"), caps(tier, 8, 0)));
+            let many = build_menu(&[Some(10), Some(9), Some(12)], &[Some(1)], 1);
+            runs.push((cfg(Metric::BqEuclidean, 2, 3, many, vec![3, 0, 0], obs.clone(), "bq-euclidean-d2-trees-10-9-12"), caps(tier, 8, 0)));
         }
         Tier::Thorough => {
             for m in only_metric(&M7) {
@@ -162,6 +167,12 @@ pub fn c15_runs(tier: Tier) -> Vec<(HistCfg, Caps)> {
                             caps(tier, 0, 60),
                         ));
                     }
+                    // many trees, small growth and shrink of the requested count
+                    let b = build_menu(&[Some(7), Some(6), Some(20), Some(17)], &[Some(1)], 1);
+                    runs.push((
+                        cfg(m, d, 4, b, vec![4, 1, 0], obs.clone(), &format!("{}-d{d}-many-trees", m.short())),
+                        caps(tier, 0, 60),
+                    ));
                     // mixed capacities (the bucket bound is then not judged) with three rounds
                     let b = build_menu(&[None, Some(1), Some(3)], &[None, Some(1)], 1);
                     runs.push((
